@@ -193,7 +193,7 @@ quorum the vote counter reports is a quorum of the global history in the sense o
 (tally = power of the DISTINCT senders ≤ weight of the justified validators), and stored proposals
 were sent or come from a Byzantine proposer. Needs `EnvOK`: same powers/proposer/validity, validator
 list without duplicates, power 0 outside it, total power = sum < 2^64 (fits Go's `uint`). -/
-theorem vote_counter_sound (E : AEnv) (env : Env) (ok : EnvOK E env) (wf : E.WF) (s : Sys) (m : Machine)
+theorem vote_counter_sound {X : Addr → Prop} (E : AEnv) (env : Env) (ok : EnvOK E env X) (wf : E.WF) (s : Sys) (m : Machine)
     (hsim : Sim E env s m) : VCSound E s m :=
   Sim_sound E env ok wf s m hsim
 
@@ -201,18 +201,20 @@ theorem vote_counter_sound (E : AEnv) (env : Env) (ok : EnvOK E env) (wf : E.WF)
 the abstract system state `s` by `Sim` (abstract local state = the machine's Tendermint variables;
 vote counter justified by the history). For every input `i` that obeys the driver's discipline
 (`InputOK`) and is authentic (`AuthC`: a message from a correct sender was really sent by it — the
-network may delay, drop, duplicate and reorder, Byzantine senders may send anything), the machine's
+network may delay, drop, duplicate and reorder, Byzantine senders may send anything; votes of the
+excluded senders `X`, e.g. the sync pseudo-sender, never reach the machine: `NotExcl`), the machine's
 step is matched by finitely many transitions of THAT validator in the abstract system: the
 simulation holds again, no other process is touched, the history only grows, and every proposal,
 prevote, precommit and commit the machine emitted is recorded in the history. -/
-theorem exec_refines_abstract (E : AEnv) (env : Env) (ok : EnvOK E env) (wf : E.WF) (s : Sys)
-    (m : Machine) (i : Input) (hb : ¬ E.byz m.nodeAddr) (hsim : Sim E env s m) (hok : InputOK m i)
-    (hauth : ∀ c, RecvOf i c → AuthC E s.hist c) :
+theorem exec_refines_abstract {X : Addr → Prop} (E : AEnv) (env : Env) (ok : EnvOK E env X) (wf : E.WF)
+    (s : Sys) (m : Machine) (i : Input) (hb : ¬ E.byz m.nodeAddr) (hX : ¬ X m.nodeAddr)
+    (hsim : Sim E env s m) (hok : InputOK m i)
+    (hauth : ∀ c, RecvOf i c → AuthC E s.hist c ∧ NotExcl X c) :
     ∃ s', Steps E s s' ∧ Sim E env s' (m.step env i).1 ∧ (m.step env i).1.nodeAddr = m.nodeAddr ∧
       (∀ q, q ≠ m.nodeAddr → s'.loc q = s.loc q) ∧ s.hist.le s'.hist ∧
       Recorded (m.step env i).2 m.nodeAddr s'.hist ∧
       HistFrom s.hist s'.hist m.nodeAddr (m.step env i).2 :=
-  step_sim E env ok wf s m i hb hsim hok hauth
+  step_sim E env ok wf s m i hb hX hsim hok hauth
 
 /-! ## The composed system: executable machines inside the driver's loop, over an adversarial network
 
@@ -224,7 +226,9 @@ A message is deliverable iff its sender is Byzantine or the sender's machine bro
 delivered any number of times, in any order, or never. Validator powers, thresholds and proposers
 may differ from height to height (`Env` is indexed by the height). Hypotheses (`NetOK`): Byzantine
 power ≤ f at every height, N > 0 (`WF`), and the `Validators`/`Application` every machine is given
-agree with the abstract environment (`EnvOK`). NO discipline hypothesis: it is proved. -/
+agree with the abstract environment (`EnvOK`) — except on the excluded senders `N.excl`, whose gossiped
+messages `listen` drops (`Passes`: the sync pseudo-sender, d65a60f) and under which nobody runs a
+validator. NO discipline hypothesis: it is proved. -/
 
 /-- **The driver's loop keeps the discipline**: whenever the driver is inside its inner loop (about
 to feed a timeout or a message) the state machine's height is started — so `ProcessTimeout` is
@@ -267,25 +271,25 @@ theorem network_lock_respected (N : NetEnv) (ok : NetOK N) (net : Net) (hr : Net
     (hlt : r < r') (hne : v ≠ v') : ∃ vr, r ≤ vr ∧ vr < r' ∧ NetPolka N net h vr v' :=
   net_lock_respected N ok net hr p hp h r r' v v' hpc hpv hlt hne
 
-/-- `network_agreement` under its premise spelled out for what the repository ships: it needs
-`NetOK`, i.e. voting power 0 for every address that is not a validator and `N` = the sum of the
-validators' powers. The FULL statement — agreement for every `Validators` the code accepts — is false
-(next theorem): the only implementation in the repository, `consensus/mock.go`, gives every address
-power 1 and the sync pseudo-sender power `N`, and the state machine cannot tell a gossiped precommit
-from one fabricated by the sync path (known finding `sync-pseudo-sender-…`). -/
-theorem agreement_with_shipped_validators_partial (N : NetEnv) (ok : NetOK N) (net : Net)
+/-- **Agreement for the configuration the repository ships** (since b29aadf + d65a60f). `NetOK` does
+not ask the machines' `Validators` to give the excluded senders `N.excl` power 0 (`EnvOK … N.excl`):
+`mockValidators` gives the sync pseudo-sender power `N` — block sync needs it — and that is harmless
+because `driver.listen` drops every gossiped message carrying that sender (`Passes`), nobody runs a
+validator under it (`excl ⊆ byz`), and every other non-member has power 0. `N4` (non-vacuity section)
+is an instance of exactly that shape. Block sync itself stays outside (`IsEvent`). -/
+theorem agreement_with_shipped_validators (N : NetEnv) (ok : NetOK N) (net : Net)
     (hr : NetReach N net) (p p' : Addr) (hp : ¬ N.E.byz p) (hp' : ¬ N.E.byz p') (q q' : Proposal)
     (hq : Action.commit q ∈ (net.node p).out) (hq' : Action.commit q' ∈ (net.node p').out)
     (hh : q.height = q'.height) : q.value = q'.value :=
   net_agreement N ok net hr p p' hp hp' q q' hq hq' hh
 
-/-- Proved negation for an environment of the shipped shape (`envPseudo`: four validators of power 1,
-`N = 4`, and one non-member address with power 4): with NO faulty validator, two correct validators
-that saw two genuine proposals (round 0 by validator 0, round 1 by validator 3) and ONE precommit
-each with the pseudo-sender's address commit DIFFERENT values at height 0. Both input sequences
-obey the driver's discipline; the harness replays them on the real state machine and through the
-real driver. -/
-theorem agreement_fails_with_sync_pseudo_sender :
+/-- Regression witness for the defect repaired by d65a60f (and b29aadf): the STATE MACHINE ALONE, with
+a `Validators` that gives a non-member quorum power (`envPseudo`: the pseudo-sender), is not safe —
+with NO faulty validator, two correct validators that saw two genuine proposals and ONE precommit each
+carrying the pseudo-sender's address commit DIFFERENT values at height 0. Before d65a60f
+`driver.listen` let such a gossiped precommit through; the harness still feeds one to the real driver
+on every run and reports `sync-pseudo-sender-precommit-accepted-on-gossip-path` if it commits. -/
+theorem agreement_failed_with_sync_pseudo_sender_before_d65a60f :
     Action.commit ⟨0, 0, 0, -1, 8⟩ ∈ ((Machine.new envPseudo 1 0).run envPseudo pseudoA).2 ∧
     Action.commit ⟨0, 1, 3, -1, 12⟩ ∈ ((Machine.new envPseudo 2 0).run envPseudo pseudoB).2 := by
   decide
@@ -312,8 +316,8 @@ example : Action.bcastPrevote ⟨1, 0, 1, some 400⟩ ∈ ((Machine.new exEnv 1 
 example : E4.WF := E4_wf
 example : ∃ s, Reach E4 (fun _ => 0) s ∧ s.hist.decision 0 0 0 8 := E4_run_decides
 -- the hypotheses of `exec_refines_abstract` are satisfiable: matching environments, initial simulation
-example : EnvOK E4 env4 := env4_ok
-example : NetOK N4 := ⟨E4_wf, fun _ => env4_ok⟩
+example : EnvOK E4 env4 (fun a => a = 9) := env4_ok
+example : NetOK N4 := N4_ok
 -- a reachable state of the composed system in which a machine has committed
 example : ∃ net, NetReach N4 net ∧ Action.commit ⟨0, 0, 0, -1, 8⟩ ∈ (net.node 0).out := N4_run_commits
 -- two distinct correct validators commit at one height; `Sim` holds at a non-initial state
